@@ -139,6 +139,73 @@ CLAIMED["C12"] = {
             "outside the claim.",
 }
 
+CLAIMED["C02"] = {
+    "text": "PARTIAL: the bytes handed to the signature verifier "
+            "(SignedAttrs::encode_verify: SET OF tag, DER length, attribute "
+            "bytes unchanged) are decided for every length-encoding class: "
+            "sizes 0, 1, 107, 127 (short form), 128, 129, 200, 255 (0x81), "
+            "256, 257, 1000 (0x82).",
+    "ref": "§3 C02",
+    "note": "Hook: SignedAttrs::verif_from_bytes. NOT decided: the "
+            "digest / signature / EE certificate / resource coverage "
+            "composition of SignedObject::validate_at, ROA and ASPA verify "
+            "(every CMS object embeds a resource certificate whose decoder "
+            "hits a Kani internal compiler error; crypto is FFI), the "
+            "signed-attribute parser.",
+}
+CLAIMED["C03"] = {
+    "text": "PARTIAL (layer L1 of DESIGN §3 C03 plus chain comparison): at "
+            "full width (u32 / u128, no loops): AS block canonical form, "
+            "bounds, membership, counts, next/previous at both ends; "
+            "Block::sum == hull iff overlapping or adjacent; IP prefix "
+            "range arithmetic (to_min/to_max/range); range <-> prefix "
+            "canonicalisation (a range is a prefix iff aligned power of "
+            "two); IPv4 range -> prefix decomposition tiles the range "
+            "exactly (ranges of <= 8 addresses anywhere in the space, 64 in "
+            "thorough); Chain::is_encompassed and == on arbitrary canonical "
+            "chains of up to 2 blocks (instantiated at an 8-bit block type); "
+            "AS range text must be ordered.",
+    "ref": "§3 C03",
+    "note": "Hooks: resources::verif re-export of Block/Chain/OwnedChain. "
+            "NOT decided (queries run out of 14 GB / 50 min, harnesses kept "
+            "as '@tier exp'): OwnedChain::from_iter / from_iter_unsorted "
+            "(so the 'later block bridges two earlier ones' case), "
+            "Chain::trim / difference, AsBlocks::verify_issued, DER range "
+            "decoding (AS: out of memory; IP: Kani ICE), text/serde forms.",
+}
+CLAIMED["C09"] = {
+    "text": "PARTIAL: delta-chain check against a sort-and-scan reference "
+            "for 1, 2, 3 deltas with arbitrary u64 serials and arbitrary "
+            "limit (None or any usize), including no-panic; origin check for "
+            "snapshot + 2 deltas with arbitrary authority letters; the "
+            "per-element byte counter as one inductive step from an "
+            "arbitrary (trip, limit) state.",
+    "ref": "§3 C09",
+    "note": "Hooks: xml::decode::VerifCounter, Https::verif_from_parts. "
+            "Stub: alloc::fmt::format (error text only). NOT decided: "
+            "everything that runs quick-xml (parsing, write->parse round "
+            "trip, the hostile-stream bound at the call sites of "
+            "reset_and_limit): memchr's CPU detection is inline assembly, "
+            "which Kani cannot execute.",
+}
+CLAIMED["C14"] = {
+    "text": "PARTIAL: the file-name rule applied to every manifest entry is "
+            "decided against the RFC 9286 grammar for every byte string of "
+            "0..7 bytes (12 in thorough), and every accepted name is shown "
+            "to be a single non-dot segment of URI-permitted characters "
+            "without '/', i.e. a join argument that C12's join harnesses "
+            "show stays directly beneath the base.",
+    "ref": "§3 C14",
+    "note": "Hook: manifest::verif_validate_file_name (wrapper of the "
+            "private check both entry decoders call). The empty-stem name "
+            "'.ext' is accepted by the code; RFC 9286 asks for a non-empty "
+            "stem but the property text does not and the name is harmless, "
+            "so only the safe direction is demanded there. NOT decided: "
+            "Manifest::decode / ManifestContent::take_from (CMS + "
+            "certificate: Kani ICE), iter_uris, len, this/next update "
+            "order, hash verification (FFI).",
+}
+
 NOT_APPLICABLE = {
 }
 
